@@ -13,6 +13,19 @@ namespace
 {
 void snapshot(Out& o, const Status& st, const json& probe)
 {
+    // the non-const accessors give the same objects as the const ones
+    Status& nc = const_cast<Status&>(st);
+    bool ncok = true;
+    for (size_t k = 0; k < st.getDeviceStatusCount(); ++k)
+    {
+        const DeviceStatus& ds = st.getDeviceStatus(k);
+        DeviceStatus& nds = nc.getDeviceStatus(k);
+        ncok = ncok && &nds == &ds && &nds.getPacket() == &ds.getPacket();
+        for (size_t j = 0; j < ds.getInterfaceStatusCount(); ++j)
+            ncok = ncok && &nds.getInterfaceStatus(j) == &ds.getInterfaceStatus(j) &&
+                   &nds.getInterfaceStatus(j).getPacket() == &ds.getInterfaceStatus(j).getPacket();
+    }
+    o.kv("ncok", ncok);
     o.arr("snap");
     for (size_t k = 0; k < st.getDeviceStatusCount(); ++k)
     {
